@@ -387,14 +387,14 @@ namespace Dune
   template<typename T, std::size_t t1, std::size_t t2>
   bool operator==(const PoolAllocator<T,t1>& p1, const PoolAllocator<T,t2>& p2)
   {
-    return &p1==&p2;
+    return static_cast<const void*>(&p1)==static_cast<const void*>(&p2);
   }
 
 
   template<typename T, std::size_t t1, std::size_t t2>
   bool operator!=(const PoolAllocator<T,t1>& p1, const PoolAllocator<T,t2>& p2)
   {
-    return &p1 != &p2;
+    return static_cast<const void*>(&p1)!=static_cast<const void*>(&p2);
   }
 
   template<typename T, std::size_t t1, std::size_t t2>
@@ -413,13 +413,13 @@ namespace Dune
   template<std::size_t t1, std::size_t t2>
   bool operator==(const PoolAllocator<void,t1>& p1, const PoolAllocator<void,t2>& p2)
   {
-    return &p1==&p2;
+    return static_cast<const void*>(&p1)==static_cast<const void*>(&p2);
   }
 
   template<std::size_t t1, std::size_t t2>
   bool operator!=(const PoolAllocator<void,t1>& p1, const PoolAllocator<void,t2>& p2)
   {
-    return &p1!=&p2;
+    return static_cast<const void*>(&p1)!=static_cast<const void*>(&p2);
   }
 
   template<class T, std::size_t S>
